@@ -423,3 +423,23 @@ Theorem c13_place_tables_computed :
   place_table_ok table_pinned = true /\ length table_pinned = 24%nat
   /\ place_cut_ok table_no_cap = false /\ place_dest_ok table_tail_dropped = false /\ place_table_ok [] = false.
 Proof. exact place_tables_computed. Qed.
+
+(** [want_src], against which the table obtained by executing FileInfo.read and FileInfo.verify on symbolic values is compared
+    ([read_table_ok], instance obligation: nothing after start_data when arch_len is 0, the slice of footer_data at the stored offset
+    when the index is None, otherwise the stored number of bytes at the stored offset of the archive with the stored index; verify()
+    takes the checksum of the same bytes), is [read_info] / [verify_info] of the state machine. *)
+Theorem c13_read_source_is_table : forall crc st i,
+  read_info st i = ipre i ++ match want_src (ilen i =? 0) (is_none (iidx i)) with
+                            | RNone => []
+                            | RFooter => slice (foot st) (ioff i) (ilen i)
+                            | RArch => match iidx i with Some x => slice (arch_get x (archs st)) (ioff i) (ilen i) | None => [] end
+                            | ROther => []
+                            end
+  /\ verify_info crc st i = (crc (read_info st i) =? icrc i).
+Proof. exact read_info_want. Qed.
+
+Theorem c13_read_tables_computed :
+  read_table_ok rtable_pinned = true
+  /\ read_table_ok [mkRRow false false RArch ROther; mkRRow false true RFooter RFooter; mkRRow true false RNone RNone; mkRRow true true RNone RNone] = false
+  /\ read_table_ok [mkRRow false false RArch RArch] = false.
+Proof. exact read_tables_computed. Qed.
